@@ -73,6 +73,9 @@ def run(tier, seed):
         strs = rnd.sample(strs, 500)
     strs += [''.join(rnd.choice(['a', 'b', ' ', '\n', '\r', '\r\n', '\f', '\x0b', ' ', 'é', ':', '(']) for _ in range(rnd.randint(0, 30)))
              for _ in range(300 if tier == 'quick' else 5000)]
+    # code points of every display width / category: the column is a count of characters, never of terminal cells or bytes
+    WIDE = ['日', '本', '語', 'Ａ', '！', '한', '\U0001F600', '\u0301', '\u200b', '\u00ad', '\t', '\U00020000', '\u3000', 'ｱ', '\u2028', '\x85', '\x1c']
+    strs += [''.join(rnd.choice(WIDE + ['a', '.', '[', '\n', '\r\n']) for _ in range(rnd.randint(1, 14))) for _ in range(120 if tier == 'quick' else 2000)]
     cases = [(s, i) for s in strs for i in range(len(s) + 1)]
     outs = drv.run([f'(context {s_str(s)} {i})' for s, i in cases])
     nb = 0
